@@ -148,6 +148,8 @@ fn space(sink: &mut Sink, rng: &mut Rng, thorough: bool) {
       3 => all.iter().cloned().filter(|c| *c % 4 != (rng.0 % 4)).collect(),
       4 => BTreeSet::new(),
       5 => all.clone(),
+      // ONE z-order interval of cells (a single range of the MOC): often not connected
+      6 if i % 20 == 6 => { let a = rng.below(ncell); let len = 2 + rng.below((ncell / 3).max(2)); sink.count("space-shape:one-z-order-interval"); (a..(a + len).min(ncell)).collect() }
       _ => (0..ncell).filter(|_| rng.chance(1, 2)).collect(),
     };
     let m = moc_of_cells(depth, &s);
